@@ -163,7 +163,11 @@ where
     R: BufRead,
 {
     loop {
-        let src = reader.fill_buf()?;
+        let src = match reader.fill_buf() {
+            Ok(src) => src,
+            Err(e) if e.kind() == io::ErrorKind::Interrupted => continue,
+            Err(e) => return Err(e),
+        };
 
         if src.starts_with(&[COMMENT_PREFIX]) {
             discard_line(reader)?;
@@ -184,7 +188,11 @@ where
     let mut is_eol = false;
 
     while !is_eol {
-        let src = reader.fill_buf()?;
+        let src = match reader.fill_buf() {
+            Ok(src) => src,
+            Err(e) if e.kind() == io::ErrorKind::Interrupted => continue,
+            Err(e) => return Err(e),
+        };
 
         if src.is_empty() {
             break;
@@ -257,7 +265,11 @@ where
     let mut len = 0;
 
     loop {
-        let src = reader.fill_buf()?;
+        let src = match reader.fill_buf() {
+            Ok(src) => src,
+            Err(e) if e.kind() == io::ErrorKind::Interrupted => continue,
+            Err(e) => return Err(e),
+        };
 
         if r#match.is_some() || src.is_empty() {
             break;
